@@ -15,7 +15,7 @@ ASSUMPTIONS = [
     "documented layout (README / C reference implementations): Bloom = bit array, bit i is bit (i mod 8) of byte (i div 8), then footer u64 estimated_elements, u64 elements_added, f32 false_positive_rate; counting Bloom = u32 little-endian counters + the same footer; count-min = i32 counters row-major (row*width + column) + footer u32 width, u32 depth, i64 elements_added; expanding/rotating = per sub-filter [u64 elements_added][bit array] + footer u64 number of filters, u64 est, u64 added, f32 rate; cuckoo = u32 fingerprints, zero padded per bucket, + footer u32 bucket_size, u32 max_swaps; counting cuckoo = (u32 fingerprint, u32 count) pairs",
     "position = hash mod size with the hash values themselves symbolic; the hashing rule (FNV-1a seeded per index) is C18 - composing the two gives the statement about keys",
     "reference queries: min = smallest counter; mean = floor(sum / depth); mean-min = median (mean of the two middle values, floored, for even depth) of t - floor((total - t)/(width - 1)), 0 if all counters are 0; width 1 is excluded for mean-min (division by width-1)",
-    "geometry (m, k) is recomputed from the footer by the documented sizing formula (C07), little-endian host",
+    "geometry (m, k) is recomputed from the footer by the documented sizing formula (C07), little-endian host; per configuration the object's (bits, hashes) must equal ceil(-n ln p32 / 0.4804530139182), round(0.6931471805599453 m / n) evaluated with the real math module at that configuration (a concrete guard per job, label geometry-is-what-a-reader-derives; the formula over all rates is decided in C07)",
 ]
 BOUNDS = {
     "quick": "Bloom 2, 8, 11, 13, 16 bits; counting Bloom 2, 3, 6 cells; count-min 2x2, 3x2 (min, mean, mean-min) and 1x1 (min, mean); expanding/rotating 1..3 sub-filters; cuckoo / counting cuckoo 2x1, 2x2, 3x1 every occupancy",
